@@ -360,6 +360,10 @@ def run_python(sc, fault=None, mirror_false=False):
     stage = "setup"
     with contextlib.redirect_stderr(err):
         try:
+            if sc.get("presetup"):
+                # the planner object is first set up with another, permissive callback: the
+                # second setup must replace it
+                planner.setup(lambda _s: True)
             planner.setup(chk_obj)
             if pl == "PRM":
                 stage = "construct_roadmap"
@@ -391,7 +395,7 @@ def run_python(sc, fault=None, mirror_false=False):
 def plan_case(sc):
     """The Rust-side PlanCase mirroring the scenario."""
     us = int(round(sc["timeout"] * 1e6))
-    ops = [{"Setup": 0}]
+    ops = [{"Setup": 0}] * (2 if sc.get("presetup") else 1)
     if sc["planner"] == "PRM":
         ops.append({"ConstructTimed": {"us": int(sc["prm_build_s"] * 1e6)}})
     ops.append({"SolveTimed": {"us": us}})
@@ -513,7 +517,7 @@ def approx_extent(cfg):
 
 
 @st.composite
-def scenario(draw, planners=("RRT", "RRTConnect", "RRTStar"), with_obstacles=True):
+def scenario(draw, planners=("RRT", "RRTConnect", "RRTStar"), with_obstacles=True, small_steps=False):
     cfg = draw(space_cfg())
     ext = approx_extent(cfg)
     start = draw(state_in(cfg))
@@ -558,6 +562,10 @@ def scenario(draw, planners=("RRT", "RRTConnect", "RRTStar"), with_obstacles=Tru
     pl = draw(st.sampled_from(list(planners)))
     # mostly a fraction of the extent; a fifth of the time comparable to or larger than the space
     step = draw(st.one_of(fl(0.08, 0.6), fl(0.08, 0.6), fl(0.08, 0.6), fl(0.08, 0.6), fl(0.6, 1.6))) * ext
+    if small_steps and draw(st.booleans()):
+        # steps below the other numeric parameters (goal bias, radius factor): an argument slip
+        # in a constructor arm then lengthens the edges instead of shortening them
+        step = draw(fl(0.01, 0.3))
     sc = {
         "space": cfg, "start": start, "targets": targets, "goal_radius": draw(fl(0.05, 0.25)) * ext,
         "world": {"obst": obst, "only_inside": None, "sballs": sballs},
@@ -565,6 +573,7 @@ def scenario(draw, planners=("RRT", "RRTConnect", "RRTStar"), with_obstacles=Tru
         "radius": (draw(fl(0.8, 3.0)) * step) if pl != "PRM" else draw(fl(0.2, 0.6)) * ext,
         "seed": draw(st.integers(0, 2 ** 32)), "timeout": 0.4, "prm_build_s": 0.02,
         "frac_after": draw(st.one_of(st.none(), st.sampled_from([0.9, 0.011, 3.0]))),
+        "presetup": draw(st.integers(0, 3)) == 0,
     }
     return sc
 
@@ -707,11 +716,11 @@ def finish(stats, rule, assumptions):
     }
     os.makedirs(os.path.join(VERIF, "evidence"), exist_ok=True)
     evp = os.path.join(VERIF, "evidence", f"{stats.pid}.json")
-    if stats.pid == "C07" and os.path.exists(evp):
+    if stats.pid in PY_HALVES and os.path.exists(evp):
         # the Rust half of C07 has just written the evidence file: add this part to it
         base = json.load(open(evp))
         cov = base["coverage"]
-        pname = "python-two-instances"
+        pname = PY_HALVES[stats.pid]
         cov["evaluations"] += stats.evaluations
         cov["distinct_nontrivial"] += len(stats.nontrivial)
         cov["rule"] += f" || [{pname}] {rule}"
@@ -793,6 +802,8 @@ def c19_check_scenario(sc, stats):
         stats.label("resolution-fraction-non-positive")
     if any(len(o["Box"]["dims"]) <= 2 for o in sc["world"]["obst"]):
         stats.label("world-with-slab")
+    if sc.get("presetup"):
+        stats.label("set-up-twice(first with a permissive callback)")
     has_obst = bool(sc["world"]["obst"] or sc["world"]["sballs"])
     nontrivial = tag == "Ok" and len(states) >= 3 and has_obst
     if sc.get("frac_after") is not None:
@@ -1095,6 +1106,13 @@ def c20_check(sc, stats):
                 stats.case(sc, True, part)
                 stats.fail(f"C20:path-through-failed-state:{sc['planner']}:{fkind}",
                            f"path[{i}] = {s!r} is a state on which the validity callback failed ({fkind})", sc, part)
+    if tagA == "Ok" and fault["where"] == "goal" and "region" in fault and sc["planner"] != "RRTConnect":
+        # is_satisfied fails on every state of the region, so none of them "satisfies the goal":
+        # a path of RRT / RRT* / PRM cannot end there, whether or not the planner asked
+        if in_region(spaceA, cfg, fault["region"], mk_state(cfg, pA[-1])):
+            stats.case(sc, True, part)
+            stats.fail(f"C20:path-ends-where-goal-callback-fails:{sc['planner']}:{fkind}",
+                       f"the path ends at {pA[-1]!r}, inside the region where is_satisfied fails ({fkind})", sc, part)
     if tagA == "Ok" and fault["where"] == "goal" and "region" in fault:
         last = pA[-1]
         if any([hx(x) for x in last] == [hx(x) for x in f] for f in goalA.failed_states) and sc["planner"] != "RRTConnect":
@@ -1161,7 +1179,7 @@ def run_c20(tier):
 # C07 (Python half): two planner objects built from the same scenario return identical results
 # ------------------------------------------------------------------------------------------
 def c07_check(sc, stats):
-    part = "python-two-instances"
+    part = PY_HALVES["C07"]
     tag1, p1, _, _, _ = run_python(sc)
     tag2, p2, _, _, _ = run_python(sc)
     stats.label("planner:" + sc["planner"])
@@ -1180,6 +1198,113 @@ def c07_check(sc, stats):
         stats.fail(f"C07:py-result-differs:{sc['planner']}:{sc['space']['kind']}",
                    f"two Python planners with seed {sc['seed']} on the same problem returned different paths "
                    f"({len(p1)} and {len(p2)} states)", sc, part)
+
+
+# properties whose Rust check is followed by a Python half: part name under which it is merged
+# into the evidence file the Rust half has just written
+PY_HALVES = {"C07": "python-two-instances", "C05": "python-edge-lengths", "C17": "python-rrt-vs-rrtstar"}
+
+
+def c05_check(sc, stats):
+    """C05 through the bindings: consecutive path states no farther apart than the configured
+    step (RRT, RRT-Connect) / max(step, radius) (RRT*), for every planner x variant arm."""
+    part = PY_HALVES["C05"]
+    cfg = sc["space"]
+    tag, path, _, _, space = run_python(sc)
+    stats.label("planner:" + sc["planner"])
+    stats.label("kind:" + sc["space"]["kind"])
+    if tag != "Ok":
+        stats.label("outcome:" + tag)
+        if tag == "Timeout":
+            stats.discard("timeout")
+        else:
+            stats.case(sc, False, part)
+        return
+    limit = sc["step"] if sc["planner"] != "RRTStar" else max(sc["step"], sc["radius"])
+    # tolerance of the metric (DESIGN.md section 4): SO(3) distances are good to about 1e-8 rad
+    tol = 1e-9 * (1 + limit) + sum(5e-6 * max(w, 1.0) for c, w in zip(cfg["comps"], cfg["weights"]) if "SO3" in c)
+    worst = 0.0
+    for i in range(len(path) - 1):
+        d = space.distance(mk_state(cfg, path[i]), mk_state(cfg, path[i + 1]))
+        worst = max(worst, d)
+        if not d <= limit + tol:
+            stats.case(sc, True, part)
+            stats.fail(f"C05:py-edge-too-long:{sc['planner']}:{cfg['kind']}",
+                       f"segment {i} of the Python path has length {d!r}, the extension limit is {limit!r}", sc, part)
+    stats.case(sc, len(path) >= 3 and worst >= 0.99 * sc["step"], part)
+
+
+C05_RULE = ("Hypothesis-generated C19 scenarios (six from_* variants x RRT / RRT-Connect / RRT*) planned through oxmpl_py: every "
+            "segment of a returned path measured with the wrapped space.distance must respect the step (RRT*: max(step, radius)) "
+            "handed to the Python constructor. Non-trivial = a path of >= 3 states with a full-length edge.")
+
+
+def c17_check(sc, stats):
+    """C17's last sentence through the bindings: same seed and problem, RRT versus RRT*: same
+    outcome, same end state, RRT* not longer."""
+    part = PY_HALVES["C17"]
+    a = dict(sc, planner="RRT")
+    b = dict(sc, planner="RRTStar")
+    tagA, pA, _, _, space = run_python(a)
+    tagB, pB, _, _, _ = run_python(b)
+    stats.label("kind:" + sc["space"]["kind"])
+    if "Timeout" in (tagA, tagB):
+        stats.discard("timeout")
+        return
+    stats.label("outcome:" + tagA)
+    cfg = sc["space"]
+    if tagA != tagB:
+        stats.case(sc, True, part)
+        stats.fail(f"C17:py-rrt-vs-rrtstar:outcome:{cfg['kind']}", f"same seed and problem: RRT {tagA}, RRT* {tagB}", sc, part)
+    if tagA != "Ok":
+        stats.case(sc, False, part)
+        return
+
+    def length(p):
+        return sum(space.distance(mk_state(cfg, p[i]), mk_state(cfg, p[i + 1])) for i in range(len(p) - 1))
+    stats.case(sc, len(pA) >= 3, part)
+    if [hx(x) for x in pA[-1]] != [hx(x) for x in pB[-1]]:
+        stats.fail(f"C17:py-rrt-vs-rrtstar:end-state:{cfg['kind']}",
+                   f"same seed and problem: RRT ends at {pA[-1]!r}, RRT* at {pB[-1]!r}", sc, part)
+    la, lb = length(pA), length(pB)
+    if lb > la * (1 + 1e-9) + 1e-9:
+        stats.fail(f"C17:py-rrt-vs-rrtstar:longer:{cfg['kind']}", f"RRT* path length {lb!r} exceeds RRT's {la!r}", sc, part)
+
+
+C17_RULE = ("Hypothesis-generated C19 scenarios (six from_* variants) planned through oxmpl_py twice with the same seed, step, goal "
+            "bias and problem: RRT and RRT* (radius 0.8-3 x step) must agree on the outcome and on the end state of the path, and "
+            "the RRT* path must not be longer. Non-trivial = both return a path of >= 3 states.")
+
+
+def _worker(pid, check, n_quick, n_thorough, strat):
+    def w(tier, k):
+        stats = Stats(pid, tier)
+        n = (n_quick if tier == "quick" else n_thorough) // WORKERS
+        try:
+            @seed(SEED * 1000 + k)
+            @hyp_settings(n)
+            @given(strat())
+            def t(sc):
+                check(sc, stats)
+
+            t()
+        except AssertionError:
+            if stats.failure is None:
+                raise
+        return stats
+    return w
+
+
+worker_c05 = _worker("C05", c05_check, 1200, 8000, lambda: scenario(small_steps=True))
+worker_c17 = _worker("C17", c17_check, 600, 4000, lambda: scenario(planners=("RRT",)))
+
+
+def run_c05(tier):
+    return run_parallel("C05", tier, C05_RULE, [])
+
+
+def run_c17(tier):
+    return run_parallel("C17", tier, C17_RULE, [])
 
 
 C07_RULE = ("Hypothesis-generated C19 scenarios (six from_* variants x RRT / RRT-Connect / RRT*, seeds incl. 0) run twice through "
@@ -1225,6 +1350,10 @@ def replay(path):
             c20_check(sc, stats)
         elif pid == "C07":
             c07_check(sc, stats)
+        elif pid == "C05":
+            c05_check(sc, stats)
+        elif pid == "C17":
+            c17_check(sc, stats)
     except AssertionError:
         pass
     if stats.failure:
@@ -1240,12 +1369,12 @@ def main():
         code = replay(sys.argv[2])
     elif len(sys.argv) >= 6 and sys.argv[1] == "worker":
         pid, tier, k, outp = sys.argv[2], sys.argv[3], int(sys.argv[4]), sys.argv[5]
-        st = {"C19": worker_c19, "C20": worker_c20, "C07": worker_c07}[pid](tier, k)
+        st = {"C19": worker_c19, "C20": worker_c20, "C07": worker_c07, "C05": worker_c05, "C17": worker_c17}[pid](tier, k)
         json.dump(stats_to_json(st), open(outp, "w"))
         code = 0
     elif len(sys.argv) >= 3 and sys.argv[1] == "run":
         tier = sys.argv[3] if len(sys.argv) > 3 else "quick"
-        code = {"C19": run_c19, "C20": run_c20, "C07": run_c07}[sys.argv[2]](tier)
+        code = {"C19": run_c19, "C20": run_c20, "C07": run_c07, "C05": run_c05, "C17": run_c17}[sys.argv[2]](tier)
     else:
         say("usage: engine.py run C19|C20 quick|thorough | replay <file>")
         code = 2
